@@ -1132,6 +1132,38 @@ def s15_eager(inst, rep, skipset=None, rid="S15"):
         rep.violation(rid, "no-current-store", "%s: no store of a fetched token to Parser.current found" % inst.label, "")
 
 
+def s20_skip_pure(inst, rep, rid="S20"):
+    rep.rule(rid, "PATH (per token class): on the paths taken for a skipped token (in the skip set, or predicate-skipped) between fetching it and "
+                  "fetching the next one, the skeleton writes no parser state other than the cursor `pos` (the token itself goes to the tree "
+                  "through CstData::advance): no store to error_since_advance, error_node, current or in_ordered_choice and no call of "
+                  "Parser::error - otherwise inserting a skipped or lexer-error token changes which diagnostics are reported")
+    skip, _ = skipped_set(inst)
+    n = 0
+    for rel, body, pr, fetch, pushes, cur in _skip_sites(inst):
+        if not fetch:
+            continue
+        fset = set(fetch)
+        bad_pts = [(pt, "store to Parser.%s" % f) for pt, adt, f, val, st in stores(body) if adt == "Parser" and f not in ("pos",) and not (f == "current")]
+        bad_pts += [(pt, "call of %s" % fn_tail(name)) for pt, name, decl, args, t in calls(body) if fn_tail(name) in ("Parser::error", "Parser::close_error_node", "Parser::advance_with_error")]
+        for scen, what in (("A", "a token of the skip set"), ("B", "a predicate-skipped token")):
+            n += 1
+            ok = _scenario_edges(inst, body, pr, skip, scen)
+            hit = None
+            for pt, desc in bad_pts:
+                if any(flow.find_path(body, f, lambda q, it: q == pt, blocks_point=lambda q, it: q in fset, edge_ok=ok) for f in fetch):
+                    # only a violation if the path then continues to the next fetch (i.e. it is the skip path, not the path that ends the loop)
+                    if any(flow.find_path(body, pt, lambda q, it: q in fset, edge_ok=ok) for _ in (0,)):
+                        hit = (pt, desc)
+                        break
+            if hit:
+                rep.violation(rid, "%s|skip-path-writes|%s" % (rel, hit[1]), "%s: %s: stepping over %s performs a %s: skipped tokens are no longer transparent to the "
+                              "error state" % (inst.label, rel, what, hit[1]), site(body, hit[0]))
+            else:
+                rep.ok(rid, "%s %s: the path for %s writes only the cursor" % (inst.label, rel, what))
+    if n == 0:
+        rep.violation(rid, "no-skip-loop", "%s: no skip loop recognised" % inst.label, "")
+
+
 def _bool_gates(body, block):
     """atomic facts (expr, truth) of every two-way boolean switch edge that dominates `block`"""
     pr = P(body)
